@@ -873,6 +873,52 @@ pub fn check_rtol(ctx: &mut Ctx, c: &QCase) -> R {
     Ok(())
 }
 
+/// Romberg with a positive tolerance on polynomials of degree ≤ 5 ("romberg/tolerance-poly").
+/// Soundness: from level 2 on the diagonal entry R[n][n] is Boole's rule or better and integrates
+/// degree ≤ 5 exactly, so whichever level ≥ 2 a "two successive estimates agree" rule stops at — or if it
+/// never stops early and returns the last level of a budget ≥ 3 — the returned value is exact up to
+/// rounding. An answer that is off by more than 100·τ·max(1,|I|) therefore comes from stopping before
+/// level 2, i.e. from comparing the one-panel trapezoid with Simpson's rule. The generator aims at
+/// exactly that: polynomials that agree with a straight line at a, (a+b)/2 and b (so that the two
+/// coarsest estimates coincide exactly) while their integral differs from the line's.
+pub fn check_rtol_poly(ctx: &mut Ctx, c: &QCase) -> R {
+    if c.rule != "romberg" || !(3..=14).contains(&c.n) || !c.f.is_poly() || !c.f.valid() || !c.f.interval_ok(c.a, c.b) || c.f.p.len() > 6 {
+        return Ok(());
+    }
+    if !(c.tol >= 1e-12 && c.tol <= 1e-3) {
+        return Ok(());
+    }
+    let sub = "romberg/tolerance-poly";
+    let m = 0.5 * (c.a + c.b);
+    let coincide = c.a != c.b && c.f.eval(m) == 0.5 * (c.f.eval(c.a) + c.f.eval(c.b)) && c.f.p.len() >= 5;
+    ctx.case(
+        sub,
+        &format!("deg={}/{}{}", c.f.p.len() - 1, interval_class(c.a, c.b), if coincide { "/three-point-coincidence" } else { "" }),
+        c.a != c.b && c.f.p.len() >= 2,
+        Hx::new().json(c).finish(),
+    );
+    ctx.label(sub, &format!("tol=1e{}", c.tol.log10().round()));
+    ctx.sample(sub, || json!(c));
+    let f = &c.f;
+    let g = |x: f64| (f.eval(x), 0.0);
+    let r = match call_rule("romberg", &g, c.a, c.b, c.n, c.tol) {
+        Ok(r) => r,
+        Err(m) => return fail("C07/romberg/panic", format!("romberg({:?}, {:e}, {:e}, eps={:e}, {}) panicked: {}", f, c.a, c.b, c.tol, c.n, m)),
+    };
+    let exact = f.integral(c.a, c.b);
+    let err = (DD::new(r.q) - exact).abs().f();
+    let main = 100.0 * c.tol * exact.f().abs().max(1.0);
+    let bound = main + tol_poly(f, c.a, c.b, r.n_eval);
+    ctx.worst("romberg/tolerance-poly |Q-I| / (100 tau max(1,|I|) + R)", err / bound);
+    ensure!(
+        err <= bound,
+        "C07/romberg/tolerance",
+        "romberg of {:?} over [{:e}, {:e}] with eps={:e}, budget {} returned {:e} after {} evaluations, exact {:e}: error {:e} > 100*eps*max(1,|I|) = {:e} (+ rounding allowance {:e}); degree <= 5 is integrated exactly from level 2 on, so the rule stopped before level 2",
+        f, c.a, c.b, c.tol, c.n, r.q, r.n_eval, exact.f(), err, main, bound - main
+    );
+    Ok(())
+}
+
 // ------------------------------------------------------------------------------------------------
 // tabulated samples
 // ------------------------------------------------------------------------------------------------
@@ -1082,6 +1128,34 @@ fn errbound_case() -> impl Strategy<Value = QCase> {
 fn rtol_case() -> impl Strategy<Value = QCase> {
     (smooth_case(true), 3i32..=12, prop_oneof![6 => Just(12usize), 2 => Just(16usize), 1 => Just(10usize), 1 => Just(20usize)])
         .prop_map(|((f, a, b), k, n)| QCase { rule: "romberg".into(), f, a, b, n, tol: 10f64.powi(-k) })
+}
+
+/// Polynomials of degree ≤ 5 for `romberg/tolerance-poly`: half of them random, half built as
+/// line(x) + (x−a)(x−m)(x−b)(c0 + c1·x) with small integers, so that f(m) = (f(a)+f(b))/2 exactly.
+fn rtol_poly_case() -> impl Strategy<Value = QCase> {
+    let tol = (3i32..=12).prop_map(|e| 10f64.powi(-e));
+    let random = (poly(5), interval(), 3usize..=14, tol.clone()).prop_map(|(f, (a, b), n, tol)| QCase { rule: "romberg".into(), f, a, b, n, tol });
+    let built = (-8i32..=8, 1i32..=6, -6i32..=6, -6i32..=6, -6i32..=6, -6i32..=6, any::<bool>(), 3usize..=14, tol).prop_map(
+        |(a, half, l0, l1, c0, c1, swap, n, tol)| {
+            let (a, m, b) = (a as f64, (a + half) as f64, (a + 2 * half) as f64);
+            // (x-a)(x-m)(x-b) = x^3 - (a+m+b) x^2 + (am+ab+mb) x - amb
+            let cubic = [-(a * m * b), a * m + a * b + m * b, -(a + m + b), 1.0];
+            let c1 = if c0 == 0 && c1 == 0 { 1 } else { c1 };
+            let mut co = vec![0.0; 5];
+            for (i, q) in cubic.iter().enumerate() {
+                co[i] += q * c0 as f64;
+                co[i + 1] += q * c1 as f64;
+            }
+            co[0] += l0 as f64;
+            co[1] += l1 as f64;
+            while co.len() > 1 && *co.last().unwrap() == 0.0 {
+                co.pop();
+            }
+            let (a, b) = if swap { (b, a) } else { (a, b) };
+            QCase { rule: "romberg".into(), f: Integrand::poly(co), a, b, n, tol }
+        },
+    );
+    prop_oneof![random, built]
 }
 
 fn any_integrand_on() -> impl Strategy<Value = (Integrand, f64, f64)> {
@@ -1354,6 +1428,14 @@ Non-trivial: degree >= 1 or non-polynomial integrand, and a != b; distinct by (s
     }
     ctx.run_prop_par("trapz/error-bound", ctx.scale(20_000, 400_000), th, errbound_case, check_errbound);
     ctx.run_prop_par("romberg/tolerance", ctx.scale(8_000, 200_000), 16, rtol_case, check_rtol);
+    // the textbook three-point coincidences: x^4 - x^2 on [-1,1] (both coarse estimates are 0, the integral is -4/15)
+    for (co, a, b) in [(vec![0.0, 0.0, -1.0, 0.0, 1.0], -1.0, 1.0), (vec![0.0, 0.0, -4.0, 0.0, 1.0], 2.0, -2.0)] {
+        for tol in [1e-3, 1e-6, 1e-9] {
+            let c = QCase { rule: "romberg".into(), f: Integrand::poly(co.clone()), a, b, n: 10, tol };
+            ctx.check_one("romberg/tolerance-poly", &c, check_rtol_poly);
+        }
+    }
+    ctx.run_prop_par("romberg/tolerance-poly", ctx.scale(8_000, 200_000), 16, rtol_poly_case, check_rtol_poly);
     let maxn = 10_000usize;
     ctx.run_prop_par("samples/value", ctx.scale(6_000, 100_000), 16, || samp_case(maxn), check_samples);
     ctx.run_prop_par("samples/reject", ctx.scale(500, 20_000), 4, rej_case, check_reject);
@@ -1372,6 +1454,7 @@ pub fn replay(ctx: &mut Ctx, sub: &str, v: Value) -> Option<R> {
     match sub {
         "trapz/error-bound" => Some(check_errbound(ctx, &decode::<QCase>(v)?)),
         "romberg/tolerance" => Some(check_rtol(ctx, &decode::<QCase>(v)?)),
+        "romberg/tolerance-poly" => Some(check_rtol_poly(ctx, &decode::<QCase>(v)?)),
         "samples/value" => Some(check_samples(ctx, &decode::<SampCase>(v)?)),
         "samples/reject" => Some(check_reject(ctx, &decode::<RejCase>(v)?)),
         _ => None,
